@@ -28,6 +28,22 @@ def module_path(modname):
     return base + '.py'
 
 
+def _const_eval(node):
+    "literal_eval extended by integer arithmetic / shifts of literals (`1 << 2`): still a constant of the source"
+    try:
+        return ast.literal_eval(node)
+    except Exception:
+        pass
+    ok = (ast.Expression, ast.BinOp, ast.UnaryOp, ast.Constant, ast.LShift, ast.RShift, ast.BitOr, ast.BitAnd,
+          ast.Add, ast.Sub, ast.Mult, ast.USub, ast.UAdd)
+    for n in ast.walk(node):
+        if not isinstance(n, ok):
+            raise ValueError('not a constant expression')
+        if isinstance(n, ast.Constant) and not isinstance(n.value, int):
+            raise ValueError('not an integer constant expression')
+    return eval(compile(ast.Expression(body=node), '<const>', 'eval'), {'__builtins__': {}})
+
+
 class ClassInfo:
     def __init__(self, module, node):
         self.module = module
@@ -47,7 +63,7 @@ class ClassInfo:
             elif isinstance(st, ast.Assign) and len(st.targets) == 1 and isinstance(st.targets[0], ast.Name):
                 tname = st.targets[0].id
                 try:
-                    v = ast.literal_eval(st.value)
+                    v = _const_eval(st.value)
                 except Exception:
                     continue
                 if tname == '__slots__':
@@ -113,7 +129,7 @@ class Module:
             elif isinstance(st, ast.Assign) and len(st.targets) == 1 and isinstance(st.targets[0], ast.Name):
                 tname = st.targets[0].id
                 try:
-                    self.consts[tname] = ast.literal_eval(st.value)
+                    self.consts[tname] = _const_eval(st.value)
                 except Exception:
                     self.const_nodes[tname] = st.value
 
